@@ -1335,3 +1335,144 @@ def carried_locals_filled(E, fn, starts):
             return cl
         starts.extend(more)
     return carried_locals(fn, starts)
+
+
+# ---- robustness round 4: where a private helper lives / how it is declared does not matter ---------------------------------
+def flow_helpers(prog, sl, values, keep=(), depth=8):
+    """the workspace functions whose return value is (part of) one of `values` — exactly the functions that
+    Slicer.inline_deep makes transparent when the values are brought to their normal form, wherever they are declared
+    (another module, an associated function of the type they build, a generic helper): {path: Fn}, transitively"""
+    seen = {}
+    todo = list(values)
+    while todo and depth > 0:
+        nxt = []
+        for v in todo:
+            for x in walk(v):
+                if isinstance(x, tuple) and x and x[0] == 'call' and x[1] in prog.fns and x[1] not in keep and x[1] not in seen:
+                    g = prog.fns[x[1]]
+                    if g.kind == 'Closure':
+                        continue
+                    seen[x[1]] = g
+                    nxt.append(sl.local(g, 0))
+        todo = nxt
+        depth -= 1
+    return seen
+
+
+def baseline_names(prog):
+    """{current path: baseline path} for private functions that were moved *and* changed their declaration kind (a free
+    function re-homed as an associated function of the type it builds, or the other way round).  lib/mir's
+    read_under_baseline_names identifies a baseline function that is gone with the unique new function of identical
+    signature, but compares the kind (Fn / AssocFn) too; here the kind is left out: same crate, same argument and return
+    types, exactly one baseline function missing and exactly one new non-public function with that signature.  Only the
+    *name a finding is reported under* is taken from this; the bodies analysed are always the current ones."""
+    cached = getattr(prog, '_c06_baseline_names', None)
+    if cached is not None:
+        return cached
+    out = {}
+    try:
+        import json
+        from .lib.mir import BASELINE
+        with open(BASELINE) as fh:
+            base = json.load(fh)['fns']
+    except (OSError, ValueError, KeyError, ImportError):
+        base = {}
+    if base:
+        cur = {p: g for p, g in prog.fns.items() if g.kind in ('Fn', 'AssocFn') and not p.startswith('<')}
+        sig = lambda crate, args, ret: (crate, tuple(args), ret)
+        crates = {g.crate for g in cur.values()}
+        missing = {p: sig(s[0], s[2], s[3]) for p, s in base.items() if p not in cur and s[0] in crates and s[1] in ('Fn', 'AssocFn')}
+        fresh = {p: sig(g.crate, g.args, g.ret) for p, g in cur.items() if p not in base and g.vis != 'pub'}
+        for p, s in sorted(missing.items()):
+            cands = [q for q, t in fresh.items() if t == s]
+            others = [m for m, t in missing.items() if t == s]
+            if len(cands) == 1 and len(others) == 1:
+                out[cands[0]] = p
+    prog._c06_baseline_names = out
+    return out
+
+
+def reported_name(prog, fn):
+    """the path a function (or a closure inside it) is reported under: its baseline name where it was only moved"""
+    names = baseline_names(prog)
+    p = fn.path
+    if p in names:
+        return names[p]
+    for q, b in names.items():
+        if p.startswith(q + '::{closure'):
+            return b + p[len(q):]
+    return p
+
+
+_HAND_ON = ('std::ops::Try::branch', 'std::result::Result::<T, E>::map_err', 'std::result::Result::<T, E>::inspect_err',
+            'std::result::Result::<T, E>::inspect', 'std::option::Option::<T>::inspect')
+
+
+def carried_locals_through(E, fn, starts, helpers):
+    """carried_locals_filled, continued through the hand-over to a private helper that builds (part of) the value: the
+    arguments of a call to one of `helpers` (paths; flow_helpers of the value) carry its parts, as do the receiver of `?` /
+    map_err / inspect_err in front of it and the referent of a shared borrow handed to it.  So "not modified in place between
+    its source and the hand-over" covers the locals of the caller whether the struct literal is written in the caller or in a
+    constructor-like helper the caller passes the parts to."""
+    from .lib.mir import op_place
+    starts = list(starts)
+    cl = carried_locals_filled(E, fn, starts)
+    for _ in range(8):
+        more = []
+        for l in cl:
+            if 1 <= l <= fn.argc:
+                continue
+            for d in fn.whole_defs(l):
+                ops = []
+                if d[0] == 'call':
+                    c = d[3]
+                    if c.indirect:
+                        continue
+                    if c.name in helpers:
+                        ops = list(c.args)
+                    elif c.name in _HAND_ON or c.decl in _HAND_ON:
+                        ops = list(c.args[:1])
+                elif d[0] == 'stmt' and d[3]['r'] == 'ref' and not d[3].get('mut'):
+                    if d[3]['p'][0] not in cl and d[3]['p'][0] not in more:
+                        more.append(d[3]['p'][0])
+                for o in ops:
+                    p = op_place(o)
+                    if p and p[0] not in cl and p[0] not in more:
+                        more.append(p[0])
+        if not more:
+            return cl
+        starts.extend(more)
+        cl = carried_locals_filled(E, fn, starts)
+    return cl
+
+
+def find_fn(prog, path):
+    """the function the rules know under `path` on the pinned tree: itself, or — when it is gone — the function that
+    baseline_names identifies with it (moved and re-declared, e.g. a free function turned into an associated function of
+    the type it returns).  Raises like Program.fn when there is neither."""
+    g = prog.fns.get(path)
+    if g is not None:
+        return g
+    for cur, base in baseline_names(prog).items():
+        if base == path and cur in prog.fns:
+            return prog.fns[cur]
+    return prog.fn(path)
+
+
+def name_by_role(prog, sl, values, builds, baseline_path):
+    """Role-based naming where the signature changed together with the move: among the functions whose return value is part
+    of `values` (flow_helpers), the one whose success payload is a literal of the type `builds` *is* the function the rules
+    know as `baseline_path` (e.g. "the function that assembles the context's Target" = libcnb::runtime::context_target),
+    provided that path is gone and exactly one function has that role.  Affects reported names / find_fn only."""
+    names = baseline_names(prog)
+    if baseline_path in prog.fns or baseline_path in names.values():
+        return
+    cands = []
+    for path, g in flow_helpers(prog, sl, values).items():
+        rv = _strip(sl.mk_unwrap(sl.local(g, 0), 1))
+        if rv[0] != 'agg':
+            rv = _strip(sl.local(g, 0))
+        if rv[0] == 'agg' and (rv[1] or '').endswith(builds) and path not in names:
+            cands.append(path)
+    if len(cands) == 1:
+        names[cands[0]] = baseline_path
